@@ -203,7 +203,7 @@ fn remove_anonymous_from_statement(
                     "Anonymous components cannot be used inside conditions.",
                 ));
             } else {
-                let id_var_while = "anon_var_".to_string()
+                let id_var_while = program_structure::ir::GENERATED_COUNTER_PREFIX.to_string()
                     + &file_library.get_line(meta.start, meta.get_file_id()).unwrap().to_string()
                     + "_"
                     + &meta.start.to_string();
